@@ -122,3 +122,46 @@ fn check_ingest(mgr: &ResourceRecordManager<'static>, recs: &[ResourceRecord<'st
     }
     fails
 }
+
+/// C15 evaluated on concrete data: announce `info` under `full`, cross the wire in a compressed packet, discover it again
+fn check_instance(info: crate::InstanceInformation, service: &Name<'static>, full: &Name<'static>, ttl: u32) -> Vec<&'static str> {
+    let mut fails = Vec::new();
+    let original = info.clone();
+    let records = match info.into_records(full, ttl) {
+        Ok(r) => r,
+        Err(_) => return vec!["into-err"],
+    };
+    let count = |f: &dyn Fn(&RData) -> bool| records.iter().filter(|r| f(&r.rdata)).count();
+    let v4 = original.ip_addresses.iter().filter(|i| i.is_ipv4()).count();
+    let v6 = original.ip_addresses.len() - v4;
+    if count(&|r| matches!(r, RData::A(_))) != v4 || count(&|r| matches!(r, RData::AAAA(_))) != v6
+        || count(&|r| matches!(r, RData::SRV(_))) != original.ports.len() || count(&|r| matches!(r, RData::TXT(_))) != 1
+        || records.len() != v4 + v6 + original.ports.len() + 1
+    {
+        fails.push("records");
+    }
+    if records.iter().any(|r| r.name != *full || r.ttl != ttl || r.class != CLASS::IN) {
+        fails.push("records");
+    }
+    let mut p = Packet::new_reply(7);
+    p.answers = records;
+    let bytes = match p.build_bytes_vec_compressed() {
+        Ok(b) => b,
+        Err(_) => { fails.push("wire"); return fails; }
+    };
+    let parsed = match Packet::parse(&bytes) {
+        Ok(p) => p,
+        Err(_) => { fails.push("wire"); return fails; }
+    };
+    match crate::InstanceInformation::from_records(service, parsed.answers.iter()) {
+        None => fails.push("discover"),
+        Some(found) => {
+            if found.ip_addresses != original.ip_addresses { fails.push("addresses"); }
+            if found.ports != original.ports { fails.push("ports"); }
+            if found.attributes != original.attributes { fails.push("attributes"); }
+            if found.unescaped_instance_name() != original.unescaped_instance_name() { fails.push("name"); }
+            if found != original { fails.push("instance"); }
+        }
+    }
+    fails
+}
